@@ -1,5 +1,6 @@
 (* C08 — list, count and display-all agree on the same PELs, in file-name order. *)
 From Coq Require Import List NArith ZArith Bool Arith Sorting.Sorted.
+From PV Require Gen.Layouts Spec.PublishedLayouts.
 From PV Require Import Base.Bytes Base.Lit Base.Json Base.TextOrder Base.PelTypes Model.Render Model.Pel Model.Select Model.Cli Model.CliPel
                        Spec.Encode Gen.Tables Proofs.TextOrderFacts Proofs.CliFacts Proofs.SummaryFacts.
 Import ListNotations.
@@ -50,6 +51,16 @@ Print Assumptions C08_extension.
 Theorem C08_extension_only : forall e r names n, In n (file_list (Some e) r names) -> e <> [] -> splitext_ext n = e.
 Proof. exact extension_only. Qed.
 Print Assumptions C08_extension_only.
+
+
+(* ---- the tie to the source text ----
+   the fields of a --list entry, each with the expression of the full decode it is taken from (the reference code of the primary SRC,
+   the PLID / creator / created-by of the private header, subsystem / severity of the user header), as extracted on every run from the
+   source text of parsePELSummary (harness/extract_layouts.py) equal the published table *)
+Theorem C08_source_summary_fields :
+  Gen.Layouts.ok_Summary = true /\ Gen.Layouts.sh_Summary = Spec.PublishedLayouts.sh_Summary.
+Proof. split; reflexivity. Qed.
+Print Assumptions C08_source_summary_fields.
 
 (* each --list entry's PLID, creator, subsystem, commit time, severity and component are the fields of the same decoded
    headers the full document shows, and its SRC is the reference code of the first Primary SRC section of the full decode *)
